@@ -20,15 +20,56 @@ pub fn forge<S, G>(scn: &Scenario, sess: &Sess<S>, op: &Op, honest: &Claim<S>, p
 where
     G: AffineRepr<ScalarField = S::F>,
     S: Scheme<P = UPoly<<G as AffineRepr>::ScalarField>, Pt = <G as AffineRepr>::ScalarField>,
-    S::PC: PolynomialCommitment<S::F, S::P, Commitment = ipa_pc::Commitment<G>, Proof = ipa_pc::Proof<G>, CommitmentState = ipa_pc::Randomness<G>>,
+    S::PC: PolynomialCommitment<S::F, S::P, Commitment = ipa_pc::Commitment<G>, Proof = ipa_pc::Proof<G>, CommitmentState = ipa_pc::Randomness<G>, CommitterKey = ipa_pc::CommitterKey<G>>,
 {
     let mut out = vec![];
     let (Op::Open { polys, point }, Claim::Open { labels, point: z, .. }) = (op, honest) else { return out };
-    // single non-hiding, unbounded victim
+    // single unbounded victim
     if polys.len() != 1 || pos != 0 {
         return out;
     }
     let vi = polys[0];
+    // (2) one extra folding round: the committer key padded with identity points commits to
+    // q = p + (delta / z^n) X^n exactly as to p (n = key length), q(z) = p(z) + delta, and the
+    // library's own prover run on q with the padded key yields a proof with log2(n) + 1 rounds.
+    // A verifier that checks the number of rounds refuses it; one that does not truncates the
+    // 2n-coefficient check polynomial to its n key elements and accepts any value. Presented to
+    // `check`, and as a one-query batch to `batch_check`.
+    if scn.polys[vi].degree_bound.is_none() && !z.is_zero() {
+        use ark_poly::DenseUVPolynomial;
+        let ck = &sess.prover.ck;
+        let n = ck.comm_key.len();
+        let delta: S::F = loop {
+            let x = S::F::rand(&mut stream(scn.seed, "ipa-forge-rounds", f.param));
+            if !x.is_zero() {
+                break x;
+            }
+        };
+        let mut ck2 = ck.clone();
+        ck2.comm_key.extend(std::iter::repeat(G::zero()).take(n));
+        let p = sess.prover.polys[vi].polynomial();
+        let mut coeffs = p.coeffs().to_vec();
+        coeffs.resize(n + 1, S::F::zero());
+        coeffs[n] = delta * z.pow([n as u64]).inverse().unwrap();
+        let q = LabeledPolynomial::new(labels[0].clone(), UPoly::<S::F>::from_coefficients_vec(coeffs), None, scn.polys[vi].hiding);
+        let claimed = q.polynomial().eval_ref(z);
+        let cp = sess.prover.comms.get(vi).filter(|c| c.label() == &labels[0]);
+        let st = sess.prover.states.get(vi);
+        if let (Some(cp), Some(st)) = (cp, st) {
+            let mut sp = pre_verifier.fork();
+            let mut rng = SimRng::new(scn.seed, "ipa-forge-rounds-rng", f.param);
+            if let Outcome::Ok(proof_q) = step(|| PcOf::<S>::open(&ck2, [&q], [cp], z, &mut sp, [st], Some(&mut rng))) {
+                if claimed != p.eval_ref(z) && proof_q.l_vec.len() > ark_std::log2(n) as usize {
+                    out.push(("extra-round/check".to_string(), Claim::Open { labels: labels.clone(), point: z.clone(), values: vec![claimed], proof: proof_q.clone() }));
+                    let mut qs = ark_poly_commit::QuerySet::<S::Pt>::new();
+                    qs.insert((labels[0].clone(), (scn.points[*point].label.clone(), z.clone())));
+                    let mut evals = ark_poly_commit::Evaluations::<S::Pt, S::F>::new();
+                    evals.insert((labels[0].clone(), z.clone()), claimed);
+                    out.push(("extra-round/batch_check".to_string(), Claim::Batch { qs, evals, proof: vec![proof_q].into() }));
+                }
+            }
+        }
+    }
     if scn.polys[vi].hiding.is_some() || scn.polys[vi].degree_bound.is_some() {
         return out;
     }
